@@ -31,7 +31,8 @@ fn pick_id(rng: &mut Rng, st: &RealState) -> usize {
 
 pub fn random_op(rng: &mut Rng, st: &RealState) -> String {
     let slots = slots_of(&st.tree);
-    match rng.below(17) {
+    match rng.below(18) {
+        17 => format!("ar.add_copy\t{}\t{}\t{}", pick_id(rng, st), pick_id(rng, st), len_tok(rng)),
         16 => format!("ar.setname\t{}\t{}", pick_id(rng, st), if rng.chance(1, 8) { "-".to_string() } else { format!("h{}", hex(&format!("R{}", rng.below(100000)))) }),
         0 | 1 => format!("ar.add_child\t{}\t{}\t{}", pick_id(rng, st), len_tok(rng), if rng.chance(1, 2) { format!("h{}", hex(&format!("N{}", rng.below(1000)))) } else { "-".into() }),
         2 | 3 | 4 => format!("ar.prune\t{}", pick_id(rng, st)),
@@ -72,6 +73,12 @@ fn all_ops(st: &RealState) -> Vec<String> {
     for p in 0..=n {
         v.push(format!("ar.add_child\t{p}\t1024\t-"));
         v.push(format!("ar.prune\t{p}"));
+    }
+    // the node argument of add_child is a copy of a node of the tree (root, an internal node, a tip), with and without a length
+    for src in 0..n.min(3) {
+        for p in 0..n.min(3) {
+            v.push(format!("ar.add_copy\t{src}\t{p}\t{}", if (src + p) % 2 == 0 { "-" } else { "512" }));
+        }
     }
     v.push("ar.compress".into());
     v.push("real.resolve\t7".into());
@@ -206,7 +213,9 @@ pub fn run(cfg: &Cfg, rep: &mut Report) {
                         let mut alive = true;
                         for op in prefix.iter() {
                             let (a, _) = st.exec(op);
-                            if class_of(&a) == "panic" {
+                            // a prefix that panicked or broke the invariant is not extended (a broken arena can send the
+                            // crate's recursive functions round a cycle): it is run once more as a history, which reports it
+                            if class_of(&a) == "panic" || check_inv(&slots_of(&st.tree), false).is_err() {
                                 alive = false;
                                 break;
                             }
